@@ -254,95 +254,112 @@ func c05RestartMutations(x *mc.Cell) {
 			{name: "no-voucher", sender: doubles.PeerB, build: func(c datatransfer.ChannelID) datatransfer.Request {
 				return NewReq(uint64(c.ID), true, pull, nil)
 			}},
+			{name: "latest-voucher-instead-of-original", sender: doubles.PeerB, build: func(c datatransfer.ChannelID) datatransfer.Request {
+				o := doubles.Voucher("T", "follow-up")
+				return NewReq(uint64(c.ID), true, pull, &o)
+			}},
 			{name: "sent-by-stranger", sender: doubles.PeerC, build: std(pull)},
 			{name: "terminated-channel", sender: doubles.PeerB, build: std(pull), terminate: true},
 			{name: "receiver-is-initiator", sender: doubles.PeerB, build: std(pull), created: true},
 		}
 		for _, m := range muts {
 			for _, newMgr := range []bool{false, true} {
-				m, newMgr := m, newMgr
-				rep := map[string]any{"mutation": m.name, "pull": pull, "new_manager": newMgr}
-				run(x, "C05", Opts{Types: []string{"T", "U"}}, rep, func(n *Node) {
-					var chid datatransfer.ChannelID
-					if m.created {
-						var err error
-						if pull {
-							chid, err = n.Mgr.OpenPullDataChannel(context.Background(), doubles.PeerB, v, doubles.Cid("root"), doubles.AllSelector())
+				for _, followUp := range []bool{false, true} {
+					m, newMgr, followUp := m, newMgr, followUp
+					if m.created && followUp {
+						continue
+					}
+					rep := map[string]any{"mutation": m.name, "pull": pull, "new_manager": newMgr, "follow_up_voucher_received": followUp}
+					run(x, "C05", Opts{Types: []string{"T", "U"}}, rep, func(n *Node) {
+						var chid datatransfer.ChannelID
+						if m.created {
+							var err error
+							if pull {
+								chid, err = n.Mgr.OpenPullDataChannel(context.Background(), doubles.PeerB, v, doubles.Cid("root"), doubles.AllSelector())
+							} else {
+								chid, err = n.Mgr.OpenPushDataChannel(context.Background(), doubles.PeerB, v, doubles.Cid("root"), doubles.AllSelector())
+							}
+							if err != nil {
+								panic(err)
+							}
+							mc.Wait()
 						} else {
-							chid, err = n.Mgr.OpenPushDataChannel(context.Background(), doubles.PeerB, v, doubles.Cid("root"), doubles.AllSelector())
+							chid = mkReceived(n, pull, 7, datatransfer.ValidationResult{Accepted: true})
+							n.H().OnTransferInitiated(chid)
+							mc.Wait()
 						}
-						if err != nil {
-							panic(err)
+						if followUp {
+							// the initiator sent a second voucher during the transfer: the restart must still repeat the ORIGINAL one
+							fv := doubles.Voucher("T", "follow-up")
+							vr, _ := message.VoucherRequest(chid.ID, &fv)
+							n.RecvRequest(doubles.PeerB, vr)
 						}
-						mc.Wait()
-					} else {
-						chid = mkReceived(n, pull, 7, datatransfer.ValidationResult{Accepted: true})
-						n.H().OnTransferInitiated(chid)
-						mc.Wait()
-					}
-					if m.terminate {
-						_ = n.Mgr.CloseDataTransferChannel(context.Background(), chid)
-						mc.Wait()
-					}
-					if newMgr {
-						img := n.DS.Image()
-						n.Stop()
-						n2, err := NewNode(Opts{DS: doubles.NewRecDSFrom(img), Types: []string{"T", "U"}})
-						if err != nil {
-							panic(err)
+						if m.terminate {
+							_ = n.Mgr.CloseDataTransferChannel(context.Background(), chid)
+							mc.Wait()
 						}
-						defer n2.Stop()
-						n = n2
-					}
-					before := digestOf(n, chid)
-					mk := n.Mark()
-					n.RecvRequest(m.sender, m.build(chid))
-					d := n.Since(mk)
-					x.Premise++
-					restartRecorded, validated := false, false
-					for _, e := range d.Events {
-						if e.Chid == chid && e.Code == datatransfer.Restart {
-							restartRecorded = true
+						if newMgr {
+							img := n.DS.Image()
+							n.Stop()
+							n2, err := NewNode(Opts{DS: doubles.NewRecDSFrom(img), Types: []string{"T", "U"}})
+							if err != nil {
+								panic(err)
+							}
+							defer n2.Stop()
+							n = n2
 						}
-					}
-					for _, vcs := range d.VCalls {
-						for _, vc := range vcs {
-							if vc.Chid == chid && vc.Kind == "restart" {
-								validated = true
+						before := digestOf(n, chid)
+						mk := n.Mark()
+						n.RecvRequest(m.sender, m.build(chid))
+						d := n.Since(mk)
+						x.Premise++
+						restartRecorded, validated := false, false
+						for _, e := range d.Events {
+							if e.Chid == chid && e.Code == datatransfer.Restart {
+								restartRecorded = true
 							}
 						}
-					}
-					opened := false
-					for _, tc := range d.TCalls {
-						if tc.Op == "open" && tc.Chid == chid {
-							opened = true
+						for _, vcs := range d.VCalls {
+							for _, vc := range vcs {
+								if vc.Chid == chid && vc.Kind == "restart" {
+									validated = true
+								}
+							}
 						}
-					}
-					accepted := false
-					if r, _ := replyOf(0, d, nil); r != nil && r.Accepted() && m.sender == doubles.PeerB {
-						accepted = true
-					}
-					ctx := fmt.Sprintf("mutation=%s pull=%v newmgr=%v\n  %s", m.name, pull, newMgr, d)
-					sig := func(s string) string { return fmt.Sprintf("restart-request;%s;mutation=%s;pull=%v", s, m.name, pull) }
-					x.Outcome(fmt.Sprintf("%s|%v|%v|%v|%v", m.name, restartRecorded, validated, opened, accepted))
-					if m.honoured {
-						if !restartRecorded || !validated || !accepted || (!pull && !opened) {
-							x.Violate("C05", sig("valid-restart-not-honoured"), ctx, rep)
+						opened := false
+						for _, tc := range d.TCalls {
+							if tc.Op == "open" && tc.Chid == chid {
+								opened = true
+							}
 						}
-						return
-					}
-					if restartRecorded || opened || accepted {
-						x.Violate("C05", sig(fmt.Sprintf("honoured;recorded=%v;opened=%v;accepted=%v", restartRecorded, opened, accepted)), "a restart request that must be refused was honoured: "+ctx, rep)
-					}
-					if m.name == "sent-by-stranger" || m.name == "terminated-channel" || m.name == "receiver-is-initiator" {
-						if digestOf(n, chid) != before {
-							x.Violate("C05", sig("durable-state-changed"), ctx, rep)
+						accepted := false
+						if r, _ := replyOf(0, d, nil); r != nil && r.Accepted() && m.sender == doubles.PeerB {
+							accepted = true
 						}
-					}
-					if m.name == "terminated-channel" && len(d.Events) != 0 {
-						x.Violate("C02", sig("event-on-terminated-channel"), ctx, rep)
-					}
-				})
+						ctx := fmt.Sprintf("mutation=%s pull=%v newmgr=%v\n  %s", m.name, pull, newMgr, d)
+						sig := func(s string) string {
+							return fmt.Sprintf("restart-request;%s;mutation=%s;pull=%v;follow-up-voucher=%v", s, m.name, pull, followUp)
+						}
+						x.Outcome(fmt.Sprintf("%s|%v|%v|%v|%v", m.name, restartRecorded, validated, opened, accepted))
+						if m.honoured {
+							if !restartRecorded || !validated || !accepted || (!pull && !opened) {
+								x.Violate("C05", sig("valid-restart-not-honoured"), ctx, rep)
+							}
+							return
+						}
+						if restartRecorded || opened || accepted {
+							x.Violate("C05", sig(fmt.Sprintf("honoured;recorded=%v;opened=%v;accepted=%v", restartRecorded, opened, accepted)), "a restart request that must be refused was honoured: "+ctx, rep)
+						}
+						if m.name == "sent-by-stranger" || m.name == "terminated-channel" || m.name == "receiver-is-initiator" {
+							if digestOf(n, chid) != before {
+								x.Violate("C05", sig("durable-state-changed"), ctx, rep)
+							}
+						}
+						if m.name == "terminated-channel" && len(d.Events) != 0 {
+							x.Violate("C02", sig("event-on-terminated-channel"), ctx, rep)
+						}
+					})
+				}
 			}
 		}
 	}
